@@ -288,6 +288,9 @@ func readNullableBytes(reader *bytes.Reader, length int64) ([]byte, error) {
 	if length == 0 {
 		return []byte{}, nil
 	}
+	if length > int64(reader.Len()) {
+		return nil, io.ErrUnexpectedEOF
+	}
 	out := make([]byte, length)
 	if _, err := io.ReadFull(reader, out); err != nil {
 		return nil, err
